@@ -410,3 +410,4 @@ HV = "heapvec::HeapVec::"
 for nm, b in (("c13_heap_ops_len0_1", "pre-lengths 0 and 1"), ("c13_heap_ops_len3", "pre-length 3")):
     K(nm, "heapvec", ["C13", "C05", "C12"], "HeapVec try_push / pop / try_extend / try_resize / normalize / is_normalized: contents equal the reference sequence, prefix unchanged, operations never fail (Vec grows), length <= capacity", [HV + "try_push", HV + "pop", HV + "try_extend", HV + "try_resize", HV + "normalize", HV + "is_normalized", HV + "try_from"], strength="bounded", bound=b + ", growth <= 2", features=["alloc", "compact_alloc"], timeout=900)
 K("c13_heap_eq_cmp", "heapvec", ["C13", "C05"], "HeapVec eq / cmp / partial_cmp / from_u64 on vectors of <= 2 limbs", [HV + "eq", HV + "cmp", HV + "partial_cmp", HV + "from_u64"], strength="bounded", bound="<= 2 limbs", features=["alloc", "compact_alloc"], timeout=900)
+X("c08_unsafe_site_inventory", "static", _ss.unsafe_inventory, ["C08"], "every `unsafe` token in the real sources is listed in inventory/unsafe_sites.json with the obligation that covers it (a mismatch makes the check UNDECIDED: a new unsafe site must not pass silently)", ["crate-wide"], strength="proved")
